@@ -3,16 +3,25 @@
 // Contracts for the gowp verifier (/verif): comment-only file, compiled only with -tags verif.
 package types
 
+// RFC 4120 5.2.8 KerberosFlags: flag i is bit i counted from the most significant bit of the first octet
+// (flagset, defined below, is that numbering). Setting / clearing flag i changes that flag only and leaves at
+// least 32 bits (property C13).
 //@ func types.SetFlag(f, i)
 //@   requires 0 <= i && i < 32
 //@   modifies *f, elems(f.Bytes)
 //@   trusted_frame the padding loop appends in place when capacity allows
-//@   loop 1 invariant l <= len(f.Bytes)
+//@   ensures flagset(*f, i) && len(f.Bytes) >= 4 && len(f.Bytes) >= old(len(f.Bytes))
+//@   ensures forall k int :: 0 <= k && k < 8 * len(f.Bytes) && k != i ==> (flagset(*f, k) <==> old(flagset(*f, k)))
+//@   loop 1 invariant l <= len(f.Bytes) && len(f.Bytes) >= old(len(f.Bytes)) && (l < 4 ==> l == len(f.Bytes))
+//@   loop 1 invariant forall k int :: 0 <= k && k < 8 * len(f.Bytes) ==> (flagset(*f, k) <==> old(flagset(*f, k)))
 //@ func types.UnsetFlag(f, i)
 //@   requires 0 <= i && i < 32
 //@   modifies *f, elems(f.Bytes)
 //@   trusted_frame the padding loop appends in place when capacity allows
-//@   loop 1 invariant l <= len(f.Bytes)
+//@   ensures !flagset(*f, i) && len(f.Bytes) >= 4 && len(f.Bytes) >= old(len(f.Bytes))
+//@   ensures forall k int :: 0 <= k && k < 8 * len(f.Bytes) && k != i ==> (flagset(*f, k) <==> old(flagset(*f, k)))
+//@   loop 1 invariant l <= len(f.Bytes) && len(f.Bytes) >= old(len(f.Bytes)) && (l < 4 ==> l == len(f.Bytes))
+//@   loop 1 invariant forall k int :: 0 <= k && k < 8 * len(f.Bytes) ==> (flagset(*f, k) <==> old(flagset(*f, k)))
 //@ func (*types.Authenticator).GenerateSeqNumberAndSubKey(a, keyType, keySize) (err)
 //@   requires keySize >= 0 && keySize <= 1024
 
